@@ -1,5 +1,7 @@
 package PKG
 
+import "unicode/utf8"
+
 // Reference reader for the one-line JSON objects the scans print (C14): a flat object whose
 // values are strings, numbers, booleans or one nested flat object; strings are un-escaped.
 
@@ -70,9 +72,10 @@ func c14String(b []byte, i int) ([]byte, int, bool) {
 				}
 				i += 4
 				if v >= 0x80 {
-					return nil, i, false // only ASCII escapes are expected for ASCII input
+					out = utf8.AppendRune(out, rune(v))
+				} else {
+					out = append(out, byte(v))
 				}
-				out = append(out, byte(v))
 			default:
 				return nil, i, false
 			}
@@ -145,8 +148,22 @@ func c14SameBytes(a, b []byte) bool {
 
 func c14ASCII(label string, n int) []byte {
 	b := ndBytes(label, n)
+	if verifParam("NONASCII", 0) == 1 {
+		return b // any byte: invalid UTF-8 must come back as U+FFFD (see c14Expect)
+	}
 	for _, c := range b {
 		verifAssume(c < 0x80)
 	}
 	return b
+}
+
+// c14Expect: what a JSON reader gets back for the string s: s itself when it is valid UTF-8;
+// a single byte >= 0x80 (never valid on its own) reads back as U+FFFD.
+func c14Expect(s []byte) []byte {
+	if len(s) == 1 && verifParam("NONASCII", 0) == 1 {
+		if s[0] >= 0x80 {
+			return []byte{0xef, 0xbf, 0xbd}
+		}
+	}
+	return s
 }
